@@ -233,7 +233,12 @@ def r4(run, ctx):
     ok &= run.need('R4', opens, 'reopen in _do_rollover', f, 'after a rollover nothing is open: '
                    'subsequent writes fail or are lost')
     if ok:
-        have_file = attr_truth('_file', True)
+        from sa.idioms import combine
+
+        def _present(e):
+            v = none_test(e, 'self._file')
+            return None if v is None else (not v)
+        have_file = combine(_present, attr_truth('_file', True))
         for r in renames:
             rr = reach_under(cfg, cfg.entry, have_file, avoid=closes)
             run.check('R4', r.id not in rr, 'the file is closed before any rename', f, r.ast,
@@ -263,10 +268,18 @@ def r4(run, ctx):
 
     def closed(e):
         return True if norm_text(e) == 'self._file.closed' else None
-    run.check('R4', bool(reopen) and all(guarded(cfgo, n, closed, True) for n in reopen) and
+
+    def usable(e):
+        # the stream holds a file object and it is open
+        if norm_text(e) == 'self._file.closed':
+            return False
+        v = none_test(e, 'self._file')
+        return None if v is None else (not v)
+    in_use = reach_under(cfgo, cfgo.entry, usable, labels_excluded=('exc', 'raise', 'reraise'))
+    run.check('R4', bool(reopen) and not any(n.id in in_use for n in reopen) and
               cfgo.exit.id not in reach_under(cfgo, cfgo.entry, closed, avoid=reopen,
                                               labels_excluded=('exc', 'raise', 'reraise')),
-              'open() reopens the same file when closed', o2, o2.node)
+              'open() reopens the same file when closed (and only then)', o2, o2.node)
     c2 = ctx.fn(B + 'close')
     run.check('R4', 'self._file.close()' in norm_text(c2.node), 'close() closes the file', c2,
               c2.node)
